@@ -98,7 +98,7 @@ def _helper_expr(fn):
     """An expression equivalent to calling the helper, or None."""
     body = [s for s in fn.body if not _is_docstring(s)]
     if len(body) == 1 and isinstance(body[0], ast.Return) and body[0].value is not None:
-        return body[0].value
+        return _clone(body[0].value)
     gc = _guard_chain(fn.body)
     if gc is None:
         return None
